@@ -73,6 +73,44 @@ def run_race(progs, name):
     return files, found
 
 
+def run_share(pid, tier, count, nconn=6, race=True):
+    """Connections running concurrently (one goroutine each) that share one buffer pool and one set of prepared
+    messages; every connection's own trace is validated against WSWriter; optionally under the race detector."""
+    from . import writer
+    seed = core.seed()
+    q = tier == "quick"
+    progs = []
+    states = trans = 0
+    import copy
+    for fam, filt in (("prepared", None), ("invalid", lambda p: p["conns"][0]["pool"])):
+        r = core.run_mc("MC_W.tla", "MC_W_%s%s.cfg" % (fam, "_quick" if q else ""), "%s-mc-share-%s" % (pid, fam))
+        ps = [copy.deepcopy(p) for p in r["progs"] if (filt is None or filt(p))]
+        # no close / no misuse in shared runs: keep programs whose ops are WP WM NW WR CL EC SL SD WC(non-close)
+        ps = [p for p in ps if all(not (o["op"] in ("WC", "WM", "NW") and o.get("type") == 8) and not (o["op"] == "WP" and o.get("pm") == 3) for o in p["ops"])]
+        for p in ps:
+            for c in p["conns"]:
+                c["pool"] = True
+        progs += writer.interleave(ps, seed + len(progs), count // 2, nconn)
+        states += r["states"]; trans += r["transitions"]
+    conc = writer.concretise(progs, pid + ".sh", tier, seed, 1, [16, 125, 1024, 4096])
+    name = "%s-%s-share" % (pid, tier)
+    core.rundir(name)
+    files = core.drive("share", conc, name, race=race)
+    res = core.validate("WSWriterTrace.tla", "WSWriterTrace.cfg", files, name)
+    log("[%s] shared pool/PreparedMessage: %d concurrent groups of %d connections, %d traces / %d events%s" % (
+        pid, len(conc), nconn, res["traces"], res["events"], " (race detector on)" if race else ""))
+    byid = {p["id"]: p for p in conc}
+    violations = []
+    for rj in res["rejections"][:4]:
+        base = rj["tid"].rsplit("/", 1)[0]
+        prog = byid.get(base, dict(id=base))
+        violations.append(core.save_replay(pid, "share", prog, rj["trace"], "event %d not explained by WSWriter (concurrent shared pool / prepared message): %s" % (
+            rj["index"], json.dumps(rj["event"])[:500])))
+    cov = dict(states=states, transitions=trans, traces_validated_against_impl=res["traces"], trace_events=res["events"], groups=len(conc),
+               samples=[dict(program=conc[0])] if conc else [])
+    return violations, cov
+
+
 def run_conc_check(pid, tier, n_sched, n_free, race=False, assumptions=()):
     t0 = time.time()
     seed = core.seed()
